@@ -79,6 +79,9 @@ func checkC09(c *C09Case, st *VStats) *VFailure {
 		if r.OutErr != nil {
 			return vfail("ConnectionsListToString fails for format %s: %v", f, r.OutErr)
 		}
+		if r.Out2 != r.Out {
+			return vfail("format %s: rendering the same result a second time on the same analyzer gives a different text: %s", f, firstDiff(r.Out, r.Out2))
+		}
 		if api == nil {
 			api = []Triple{}
 			for _, k := range r.Keys {
@@ -213,6 +216,9 @@ func checkC09(c *C09Case, st *VStats) *VFailure {
 			}
 			if d.OutErr != nil {
 				return vfail("ConnectivityDiffToString fails for format %s: %v", f, d.OutErr)
+			}
+			if d.Out2 != d.Out {
+				return vfail("diff format %s: rendering the same diff a second time on the same analyzer gives a different text: %s", f, firstDiff(d.Out, d.Out2))
 			}
 			if dapi == nil {
 				dapi, dapiAll = []DTuple{}, []DTuple{}
